@@ -2,17 +2,121 @@
    Only statements, each closed by [exact lemma], with Print Assumptions.
    The model (Model/Ramfs.v) is the model of the REPAIRED code (fix: commits
    34ebacc, d3563b4, 96eb152, 53d9ae4 in /repo; see design/C18.md). *)
+From Coq Require Import String.
 From Coq Require Import List NArith ZArith Bool.
-From P9 Require Import Base.Res Model.Path Model.Ramfs.
-From P9 Require Import Proofs.RamfsProofs Proofs.RamfsProofsRef Proofs.RamfsProofsInv Proofs.RamfsProofsStep.
+From P9 Require Import Base.Res Base.Sexp Model.Path Model.Ramfs.
+From P9 Require Import Proofs.RamfsProofs Proofs.RamfsProofsRef Proofs.RamfsProofsInv Proofs.RamfsProofsStep Proofs.RamfsProofsSpec.
 Import ListNotations.
 Open Scope Z_scope.
 
 (* ---- no request panics the server: all operation sequences over any number of
    sessions, all fids, all 64-bit offsets, all counts.  [run] would stop at a
-   panic (or a hang); it never does: one ordinary result per operation. *)
+   panic (or a hang, which also stands for decref running out of fuel); it
+   never does: one ordinary result per operation. *)
 Theorem C18_no_panic : forall nsess ops,
   Forall (fun r => r <> Panic /\ r <> Hang) (run (init_world nsess) ops) /\
   length (run (init_world nsess) ops) = length ops.
 Proof. intros. split; [apply run_good | apply run_length]; apply init_inv. Qed.
 Print Assumptions C18_no_panic.
+
+(* ---- reference counts: in every reachable state, for every node,
+   nref = [root] + links from live parents + occurrences in the chains of bound fids *)
+Theorem C18_refcount : forall nsess ops x,
+  let w := run_world (init_world nsess) ops in
+  n_ref (getn (wst w) x) =
+    (if Nat.eqb x 0 then 1 else 0)
+    + cnt (flat_map (fun n => if 0 <? n_ref n then child_ids n else []) (wst w)) x
+    + cnt (flat_map hids (flat_map (fun t => map (fun e => f_h (snd e)) t) (w_sess w))) x.
+Proof. exact reachable_refcount. Qed.
+Print Assumptions C18_refcount.
+
+(* when all fids are clunked every node's reference count equals its number of parent links *)
+Theorem C18_refcount_all_clunked : forall nsess ops x,
+  let w := run_world (init_world nsess) ops in
+  Forall (fun t => t = []) (w_sess w) ->
+  n_ref (getn (wst w) x) =
+    (if Nat.eqb x 0 then 1 else 0)
+    + cnt (flat_map (fun n => if 0 <? n_ref n then child_ids n else []) (wst w)) x.
+Proof. exact clunked_refcount. Qed.
+Print Assumptions C18_refcount_all_clunked.
+
+Example C18_refcount_nonvacuous :
+  let w := run_world (init_world 2)
+             [OAttach 0 1 (str "u0"%string); OWalk 0 1 2 []; OCreate 0 2 (str "d"%string) (N.lor DMDIR 511) 0;
+              OAttach 1 7 (str "u1"%string); OWalk 1 7 8 [str "d"%string]; OCreate 1 8 (str "f"%string) 438 2;
+              OClunk 0 1; OClunk 0 2; OClunk 1 7; OClunk 1 8] in
+  Forall (fun t => t = []) (w_sess w) /\ map n_ref (wst w) = [1; 1; 1] /\ length (wst w) = 3%nat.
+Proof. vm_compute. repeat constructor. Qed.
+
+(* ---- file content is a byte array *)
+
+(* read(off, n) = firstn n (skipn off content), exactly for 0 <= off <= len *)
+Theorem C18_bytes_read : forall data count off, 0 <= count ->
+  (0 <= off <= zlen data ->
+     ent_read data count off = Ok (firstn (Z.to_nat count) (skipn (Z.to_nat off) data))) /\
+  ((exists d, ent_read data count off = Ok d) <-> 0 <= off <= zlen data).
+Proof. intros. split; [apply ent_read_spec; auto | apply ent_read_ok_iff; auto]. Qed.
+Print Assumptions C18_bytes_read.
+
+(* write(off, p) splices or extends; it is rejected iff off lies beyond the end (or is negative as int64) *)
+Theorem C18_bytes_write : forall data p off,
+  (0 <= off <= zlen data ->
+     ent_write data p off = Ok (firstn (Z.to_nat off) data ++ p ++ skipn (Z.to_nat off + length p) data)) /\
+  ((exists d, ent_write data p off = Ok d) <-> 0 <= off <= zlen data).
+Proof. intros. split; [apply ent_write_spec | apply ent_write_ok_iff]. Qed.
+Print Assumptions C18_bytes_write.
+
+(* after a write every position holds the byte most recently written there *)
+Theorem C18_bytes_positions : forall content off p i d, (off <= length content)%nat ->
+  nth i (spec_write content off p) d =
+    (if (off <=? i)%nat && (i <? off + length p)%nat then nth (i - off) p d else nth i content d) /\
+  length (spec_write content off p) = Nat.max (length content) (off + length p).
+Proof. intros. split; [apply spec_write_nth | apply spec_write_length]; auto. Qed.
+Print Assumptions C18_bytes_positions.
+
+(* through a session: a read on a fid opened on file node x returns the bytes of x and changes nothing *)
+Theorem C18_bytes_session_read : forall w s fid x mode off count,
+  open_file_at w s fid x mode -> (N.land mode 3 =? 1)%N = false ->
+  let data := n_data (getn (wst w) x) in
+  fst (step w (ORead s fid off count)) = w /\
+  ((s < length (w_sess w))%nat ->
+   snd (step w (ORead s fid off count)) =
+     if (0 <=? to_int64 off) && (to_int64 off <=? zlen data)
+     then Ok (RData (spec_read data (Z.to_nat (to_int64 off)) (N.to_nat count)))
+     else Err (if to_int64 off <? 0 then e_badoffset else e_eof)).
+Proof.
+  intros w s fid x mode off count H Hm. cbn zeta. unfold step. cbn [op_sess].
+  destruct (negb (s <? length (w_sess w))%nat) eqn:Hs.
+  - split; [reflexivity|]. intros Hlt. apply Nat.ltb_lt in Hlt. rewrite Hlt in Hs. discriminate.
+  - destruct (sess_read_file w s fid x mode off count H Hm) as [A B]. split; auto.
+Qed.
+Print Assumptions C18_bytes_session_read.
+
+(* a write on a fid opened for writing on file node x splices x's bytes and touches no other node *)
+Theorem C18_bytes_session_write : forall w s fid x mode off p,
+  open_file_at w s fid x mode -> (N.land mode 3 =? 1)%N || (N.land mode 3 =? 2)%N = true ->
+  let data := n_data (getn (wst w) x) in
+  let w' := fst (sess_write w s fid off p) in
+  if (0 <=? to_int64 off) && (to_int64 off <=? zlen data)
+  then snd (sess_write w s fid off p) = Ok (RCount (zlen p)) /\
+       ((x < length (wst w))%nat -> n_data (getn (wst w') x) = spec_write data (Z.to_nat (to_int64 off)) p) /\
+       (forall y, y <> x -> getn (wst w') y = getn (wst w) y) /\
+       w_sess w' = w_sess w
+  else w' = w /\ snd (sess_write w s fid off p) = Err (if to_int64 off <? 0 then e_badoffset else e_invalidaddr).
+Proof. exact sess_write_file. Qed.
+Print Assumptions C18_bytes_session_write.
+
+Example C18_bytes_nonvacuous :
+  run (init_world 1)
+      [OAttach 0 0 (str "u"%string); OCreate 0 0 (str "f"%string) 438 2; OWrite 0 0 0 [1;2;3;4;5]%N; OWrite 0 0 3 [9;9;9;9]%N;
+       ORead 0 0 1 4; ORead 0 0 7 10; ORead 0 0 8 1; ORead 0 0 9223372036854775808 1; OWrite 0 0 18446744073709551615 [1]%N]
+  = [Ok (RQid (128, 1, 0)%N); Ok (RQid (0, 2, 0)%N); Ok (RCount 5); Ok (RCount 4);
+     Ok (RData [2;3;9;9]%N); Ok (RData []); Err e_eof; Err e_badoffset; Err e_badoffset].
+Proof. vm_compute. reflexivity. Qed.
+
+(* ---- directory listings: '..' and exactly the children *)
+Theorem C18_listing : forall s h l, fh_opendir s h = Ok l ->
+  exists dd, l = set_name dd [DOT; DOT] :: map (fun c => n_info (getn s c)) (child_ids (getn s (h_ent h))) /\
+    dd = n_info (getn s (last (h_parents h) (h_ent h))).
+Proof. exact fh_opendir_listing. Qed.
+Print Assumptions C18_listing.
